@@ -59,12 +59,13 @@ type revCall struct {
 }
 
 type mockRevocation struct {
-	mu     sync.Mutex
-	vec    []revresult.Result // per certificate (leaf first); nil => all OK
-	method revresult.RevocationMethod
-	srvErr bool
-	err    error
-	calls  []revCall
+	mu             sync.Mutex
+	vec            []revresult.Result // per certificate (leaf first); nil => all OK
+	method         revresult.RevocationMethod
+	srvErr         bool
+	err            error
+	errWithResults bool // the error comes together with (harmless-looking) per-certificate results
+	calls          []revCall
 }
 
 func (m *mockRevocation) results(chain []*x509.Certificate) []*revresult.CertRevocationResult {
@@ -108,6 +109,9 @@ type ctxValidator struct{ m *mockRevocation }
 func (v ctxValidator) ValidateContext(ctx context.Context, o revocation.ValidateContextOptions) ([]*revresult.CertRevocationResult, error) {
 	v.m.record(o.CertChain, o.AuthenticSigningTime, "context")
 	if v.m.err != nil {
+		if v.m.errWithResults {
+			return v.m.results(o.CertChain), v.m.err
+		}
 		return nil, v.m.err
 	}
 	return v.m.results(o.CertChain), nil
@@ -118,6 +122,9 @@ type deprecatedClient struct{ m *mockRevocation }
 func (v deprecatedClient) Validate(chain []*x509.Certificate, signingTime time.Time) ([]*revresult.CertRevocationResult, error) {
 	v.m.record(chain, signingTime, "deprecated")
 	if v.m.err != nil {
+		if v.m.errWithResults {
+			return v.m.results(chain), v.m.err
+		}
 		return nil, v.m.err
 	}
 	return v.m.results(chain), nil
@@ -126,15 +133,16 @@ func (v deprecatedClient) Validate(chain []*x509.Certificate, signingTime time.T
 // ---- plugins -------------------------------------------------------------------
 
 type mockPlugin struct {
-	mu        sync.Mutex
-	name      string
-	version   string
-	caps      []pf.Capability
-	metaErr   error
-	verdicts  map[pf.Capability]string // "success" | "failure" | "missing"
-	processed []string                 // attribute keys reported as processed
-	execErr   error
-	requests  []*pf.VerifySignatureRequest
+	mu             sync.Mutex
+	name           string
+	version        string
+	caps           []pf.Capability
+	metaErr        error
+	verdicts       map[pf.Capability]string // "success" | "failure" | "missing"
+	processed      []string                 // attribute keys reported as processed
+	processedExtra []interface{}            // further members of processedAttributes (any JSON value)
+	execErr        error
+	requests       []*pf.VerifySignatureRequest
 }
 
 func (p *mockPlugin) GetMetadata(ctx context.Context, req *pf.GetMetadataRequest) (*pf.GetMetadataResponse, error) {
@@ -172,6 +180,8 @@ func (p *mockPlugin) VerifySignature(ctx context.Context, req *pf.VerifySignatur
 	for _, k := range p.processed {
 		resp.ProcessedAttributes = append(resp.ProcessedAttributes, k)
 	}
+	// a plugin may list anything JSON can express
+	resp.ProcessedAttributes = append(resp.ProcessedAttributes, p.processedExtra...)
 	return resp, nil
 }
 
